@@ -54,6 +54,15 @@ struct H4 {
     up: String,
 }
 
+/// a declared header that is left out when empty: the set of serialised fields varies between values
+#[derive(Clone, Serialize, JsonSchema)]
+struct H5 {
+    #[serde(skip_serializing_if = "String::is_empty")]
+    etag: String,
+    #[serde(rename = "x-gen")]
+    generation: String,
+}
+
 struct Got {
     status: u16,
     headers: Vec<(String, Vec<u8>)>,
@@ -425,6 +434,29 @@ fn run_headers(ctx: &Ctx, cn: &Cn, samples: &Samples) {
                     }
                 }
             }
+        }
+    }
+    // a header struct whose optional field comes and goes (names must be paired with this value's fields)
+    for (round, etag) in ["\"v1\"", "", "\"v2\"", "", ""].iter().enumerate() {
+        let generation = format!("{}", round + 7);
+        let r = HttpResponseHeaders::new(HttpResponseOk(1u32), H5 { etag: etag.to_string(), generation: generation.clone() });
+        let got = collect(r.to_result());
+        cn.evals.fetch_add(1, Ordering::Relaxed);
+        let ok = match &got {
+            Ok(g) => {
+                let e: Vec<Vec<u8>> = hdr(g, "etag").iter().map(|v| v.to_vec()).collect();
+                let want_e: Vec<Vec<u8>> = if etag.is_empty() { vec![] } else { vec![etag.as_bytes().to_vec()] };
+                g.status == 200 && e == want_e && hdr(g, "x-gen") == vec![generation.as_bytes()]
+            }
+            Err(_) => false,
+        };
+        if !ok {
+            ctx.report(Violation {
+                sig: json!({"kind":"headers","shape":"Ok+H5(optional field)","explicit":"None","why":["declared headers of a struct whose fields vary between values"]}),
+                case: json!({"kind":"input","seam":"to_result","shape":"Ok+H5", "sequence_position": round, "etag": etag}),
+                expected: json!({"etag": if etag.is_empty() { None } else { Some(etag) }, "x-gen": generation}),
+                observed: got_json(&got),
+            });
         }
     }
     // unnamed headers
